@@ -53,7 +53,8 @@ META = {
         "disjunctions, aliases of peek() and caller-side entry facts exclude END; look-ahead counters carry 'no counted offset is "
         "END'; N validated characters (loop / any-all / int() parse under except ValueError) justify forward(N); run-counting "
         "methods of StreamBuffer are in bounds iff their set handles END the right way round; each arm of a conditional offset "
-        "is judged under its condition; a definite move (>= 1) over unexamined characters is a violation. "
+        "is judged under its condition; a definite move (>= 1) over unexamined characters is a violation; inside "
+        "StreamBuffer.forward a look-ahead may only read the character at the (old or already advanced) index, never one further. "
         "R4: escape tables cell by cell, the _CHARS_* classes against the unions their names state (line breaks read from "
         "PyYAML's scan_line_break), the sentinel, and for the 13 ported scanner functions plus StreamBuffer.forward/peek/prefix "
         "four order- and rename-insensitive fingerprints (guards = tested stream read x operator x character set, tagged with "
@@ -61,7 +62,8 @@ META = {
         "and position stores; boolean flag operands) that must equal those of yaml/scanner.py and yaml/reader.py modulo a tabled "
         "list of deliberate deviations. Both sides are first brought into a normal form: stream helpers inlined (also when "
         "called inside an emission, with early returns), conditional expressions and `flag = <comparison>` as branches, "
-        "single-use locals forwarded, the three spellings of 'run of characters in S', the spellings of 'next N characters are "
+        "single-use locals forwarded, raw buffer accesses of the stream class read as peek()/prefix(), the three spellings of "
+        "'run of characters in S', the spellings of 'next N characters are "
         "all in S' and `prefix(k) == const` vs per-offset peeks unified, PyYAML's flow-context code read with flow_level == 0. "
         "A missing/replaced entry or an extra unconditional emission/effect is a violation; a conditional pure addition is "
         "ANALYSIS-ERROR. "
@@ -983,9 +985,20 @@ class Side:
             return "call"
         if isinstance(e, ast.Subscript):
             if isinstance(e.value, ast.Attribute) and self.is_recv(e.value.value) and ATTR_CANON.get(e.value.attr, e.value.attr) == "buffer":
+                # inside the stream class a raw buffer access is the same read as peek()/prefix()
                 if isinstance(e.slice, ast.Slice):
-                    return f"buffer[{self.norm(e.slice.lower)}:{self.norm(e.slice.upper)}]"
-                return f"buffer[{self.norm(e.slice)}]"
+                    lo_, up_ = self.norm(e.slice.lower), self.norm(e.slice.upper)
+                    if lo_ == ".index" and up_.startswith(".index+"):
+                        rest = up_[len(".index+"):]
+                        return f"prefix({rest if re.fullmatch(r'[0-9]+|i|n', rest) else 'n'})"
+                    return f"buffer[{lo_}:{up_}]"
+                ix = self.norm(e.slice)
+                if ix == ".index":
+                    return "peek(0)"
+                if ix.startswith(".index+"):
+                    rest = ix[len(".index+"):]
+                    return f"peek({rest if re.fullmatch(r'[0-9]+|i|n', rest) else 'n'})"
+                return f"buffer[{ix}]"
             try:
                 tab = self.const(e.value)
                 if isinstance(tab, dict):
@@ -1167,6 +1180,11 @@ class Side:
         """stream effects + emissions among ``nodes`` (an iterable of AST nodes)."""
         out = []
         for n in nodes:
+            if isinstance(n, ast.Subscript) and isinstance(n.ctx, ast.Load) and not self.dead(n):
+                s_ = self.norm(n)
+                if s_.startswith(("peek(", "prefix(")):
+                    out.append("read:" + s_)  # a raw buffer access inside the stream class
+                continue
             if not isinstance(n, ast.Call) or self.dead(n):
                 continue
             f = n.func
@@ -2915,17 +2933,46 @@ def r3_in_bounds(corpus: Corpus, rep: Report, tier: str):
     fw = m.func("StreamBuffer.forward")
     cfg = get_cfg(fw)
     incs = [s for s in cfg.nodes if isinstance(s, ast.AugAssign) and unparse(s.target) == "self._index"]
+    def rel_offset(n):
+        """offset of a look-ahead inside forward() relative to self._index: a buffer subscript or self.peek(k)"""
+        if isinstance(n, ast.Subscript):
+            sl = n.slice
+            if unparse(sl) == "self._index":
+                return 0
+            if isinstance(sl, ast.BinOp) and isinstance(sl.op, (ast.Add, ast.Sub)):
+                base, c = (sl.left, sl.right) if unparse(sl.left) == "self._index" else (sl.right, sl.left) if isinstance(sl.op, ast.Add) else (None, None)
+                if base is not None and unparse(base) == "self._index" and isinstance(c, ast.Constant) and isinstance(c.value, int):
+                    return c.value if isinstance(sl.op, ast.Add) else -c.value
+            return None
+        a_ = _offarg(n)
+        return 0 if a_ is None else a_.value if isinstance(a_, ast.Constant) and isinstance(a_.value, int) else None
+
     reads = [n for n in fw.local_nodes() if isinstance(n, ast.Subscript) and isinstance(n.ctx, ast.Load) and unparse(n.value) == "self._buffer"]
+    reads += [n for n in fw.local_nodes() if isinstance(n, ast.Call) and isinstance(n.func, ast.Attribute) and n.func.attr == "peek" and unparse(n.func.value) == "self"]
     if not incs or not reads:
         raise Unsupported("StreamBuffer.forward: cursor increment / buffer reads not found")
-    for rd in reads:
+    seen_rd: Counter = Counter()
+    for rd in sorted(reads, key=lambda n: (n.lineno, n.col_offset)):
         st = cfg.stmt_of(rd)
-        if not any(cfg.dominates(i, st) for i in incs):
-            rep.ok("C07.R3", f"{fw.fq}|{unparse(rd)} at the cursor", m.site(rd), "read at the cursor (callers keep it on or before the sentinel)")
-            continue
-        k = f"{fw.fq}|{unparse(rd)} after the increment"
-        rep.ok("C07.R3", k, m.site(rd), "the consumed character is never the sentinel (all forward() sites above), so the next index is at most the sentinel's")
-        continue
+        after = any(cfg.dominates(i, st) for i in incs)
+        off = rel_offset(rd)
+        k = f"{fw.fq}|{unparse(rd)} {'after the increment' if after else 'at the cursor'}"
+        seen_rd[k] += 1
+        k += f" #{seen_rd[k]}" if seen_rd[k] > 1 else ""
+        if off is None:
+            rep.error("C07.R3", f"{m.site(rd)} forward(): look-ahead `{unparse(rd)}` has an offset the rule cannot read")
+        elif not after and 0 <= off <= 1:
+            rep.ok("C07.R3", k, m.site(rd), "read at the cursor (callers keep it on a character before the sentinel)")
+        elif after and -1 <= off <= 0:
+            rep.ok("C07.R3", k, m.site(rd), "the consumed character is never the sentinel (all forward() sites above), so the next index is at most the sentinel's")
+        else:
+            rep.violation(
+                "C07.R3",
+                k,
+                m.site(rd),
+                f"forward() looks at offset {off:+d} from the {'already advanced ' if after else ''}index: after consuming the last character of the text the index is the sentinel's, "
+                "so this read is outside the buffer (IndexError out of options_to_items); it also judges CR LF by the wrong character",
+            )
     lp = [w for w in fw.local_nodes() if isinstance(w, ast.While)]
     k = f"{fw.fq}|one cursor step per count"
     if len(lp) == 1 and len([i for i in incs if _in_loop(lp[0], i)]) == 1 and isinstance(incs[0].value, ast.Constant) and incs[0].value.value == 1 and incs[0] in lp[0].body:
@@ -3425,4 +3472,17 @@ def mutants(corpus: Corpus):
         out.append(Mutant("c07-escape-consumed-before-validation", "C07.R3", m.rel, "".join(lines), expect="stream.forward(length)"))
     else:
         out.append(("c07-escape-consumed-before-validation", "escape forward not found"))
+    # --- round 6 ---
+    rd_ = lambda n: isinstance(n, ast.Subscript) and unparse(n) == "self._buffer[self._index]" and isinstance(parent(n), ast.Compare)
+    add("c07-forward-lookahead-via-peek-one-too-far", "C07.R4", "StreamBuffer.forward", rd_, "self.peek(1)", "StreamBuffer.forward|guards")
+    add("c07-forward-lookahead-index-one-too-far", "C07.R3", "StreamBuffer.forward", rd_, "self._buffer[self._index + 1]", "after the increment")
+    add(
+        "c07-clone-helper-without-none-guard",
+        "C07.R5",
+        "TokenizeError.clone",
+        lambda n: isinstance(n, ast.Return),
+        "def _shift(mark):\n            return replace(mark, line=mark.line + line_offset, column=mark.column + column_offset)\n\n"
+        "        return TokenizeError(self.problem, _shift(self.problem_mark), self.context, _shift(self.context_mark))",
+        "None-guard",
+    )
     return out
